@@ -1,7 +1,7 @@
 (* Encoders of the C16 models' results into Lib/Obs.T for the correspondence check. *)
 From Coq Require Import List ZArith NArith Bool.
 From Coq Require String Ascii.
-From Circ Require Import Lib.Obs Model.StaticPath Model.Ranges.
+From Circ Require Import Lib.Obs Model.StaticPath Model.Ranges Model.FrontEnd.
 Import ListNotations.
 
 (* ASCII literals of the generated cases *)
@@ -58,6 +58,38 @@ Definition obs_path (fs : fstable) (unq_tbl : list (str * str))
          | File l => Tl [Tn 1; Tb l]
          | Listing l => Tl [Tn 2; Tb l]
          end.
+
+(* the HTTP front end: quote / unquote are the tables of the calls circuits.web.url and
+   circuits.web.http made; the model is run with two different defaults for strings that are not
+   in the tables and must not depend on the default (else Tl [Tn (-1)]).
+   [0; sanitised] = 301 ; [1; path; sanitised] = request event fired ; [2] = Request() raised *)
+Definition tbl_fun (tbl : list (str * str)) (dflt : str) (s : str) : str :=
+  match lookup s tbl with Some r => r | None => dflt end.
+Definition fe_eqb (a b : fe_outcome) : bool :=
+  match a, b with
+  | FeDispatch x, FeDispatch y => str_eqb x y
+  | FeRedirect x, FeRedirect y => str_eqb x y
+  | FeError, FeError => true
+  | _, _ => false
+  end.
+Definition obs_frontend (q_tbl u_tbl : list (str * str)) (path : str) : T :=
+  let run := fun dflt => frontend (tbl_fun q_tbl dflt) (tbl_fun u_tbl dflt) path in
+  let san := fun dflt => sanitized (tbl_fun q_tbl dflt) (tbl_fun u_tbl dflt) path in
+  if negb (fe_eqb (run []) (run [0%N; 1%N])) then Tl [Tn (-1)]
+  else match run [] with
+       | FeError => Tl [Tn 2]
+       | FeRedirect s => Tl [Tn 0; Tb s]
+       | FeDispatch p => if str_eqb (san []) (san [0%N; 1%N]) then Tl [Tn 1; Tb p; Tb (san [])] else Tl [Tn (-1)]
+       end.
+
+(* front end, then the dispatcher on the path it was handed *)
+Definition obs_http (q_tbl u_tbl : list (str * str)) (fs : fstable) (unq_tbl : list (str * str))
+           (mount : option str) (d : str) (defaults : list str) (dirlisting : bool) (path : str) : T :=
+  let fe := obs_frontend q_tbl u_tbl path in
+  match frontend (tbl_fun q_tbl []) (tbl_fun u_tbl []) path with
+  | FeDispatch p => Tl [fe; obs_path fs unq_tbl mount d defaults dirlisting p]
+  | _ => Tl [fe; Tl [Tn 0]]
+  end.
 
 (* content of the test files: byte i is (7 i + 3) mod 251 *)
 Fixpoint content_from (n : nat) (i : N) : list N :=
